@@ -246,6 +246,10 @@ ALLOC_CORPUS = [
     '[1.5, "s"]; functie p() { } stel r = p(); stel q = 7.25 + 0.0',
     '"abc"; functie p(n) { stel i = 0; zolang i < n { i += 1; stel w = [i] } } stel r = p(3)',
     'functie p() { stel z = [0.5] } functie q() { p(); [2.5] } q(); stel a = p(); stel b = p()',
+    # a fresh activation never sees what an earlier one left in its slots (a stale word could point at a released box)
+    'functie g() { stel y = [1.5]; stel z = "s"; 0 } functie f() { stel b = b; b } g(); [f(), f()]',
+    'functie g(n) { stel y = [n + 0.5]; als n > 0 { g(n - 1) } 0 } functie f(a, b, c) { [a, b, c] } g(3); f(1)',
+    'functie g() { stel y = "tekst"; stel w = [y, y]; w } functie h() { stel p = p; stel q = q; [type(p), type(q)] } g(); g(); h()',
 ]
 # which of the corpus programs have a specified value (last statement is an expression statement)
 ALLOC_CORPUS_WITH_VALUE = [re.search(r"stel \w+ = [^;{}]*$", s.rstrip()) is None for s in ALLOC_CORPUS]
